@@ -149,7 +149,8 @@ def format_sym(x: Sym, spec: str) -> str:
             else:
                 content = width - 1
         else:
-            raise PathAbort(f"format {spec!r} narrower than its content")
+            # the field is never wider than its content: free-width behaviour
+            content = base + 1
     elif typ == "d":
         if width is None:
             content = 4
@@ -174,6 +175,14 @@ def format_sym(x: Sym, spec: str) -> str:
         raise PathAbort(f"unsupported format type {typ!r}")
     content = max(1, content)
     body = head + FILL * (content - 1)
+    # keep the decimal point where the real text has it (readers may locate fields by it)
+    dpos = None
+    if typ in "fF" and (6 if prec is None else prec) > 0:
+        dpos = len(body) - ((6 if prec is None else prec) + 1)
+    elif typ in "eE" and (6 if prec is None else prec) > 0:
+        dpos = len(body) - ((6 if prec is None else prec) + 5)
+    if dpos is not None and dpos >= 1:
+        body = body[:dpos] + "." + body[dpos + 1:]
     if note == "sep" and len(body) >= 6:
         body = body[:-5] + SEP + body[-4:]
     if sign == " " and width is None:
@@ -223,7 +232,7 @@ def _tokens_in(s):
         if tid is not None and tid < len(reg):
             tok = reg[tid]
             j = i + 1
-            while j < len(s) and (s[j] == FILL or s[j] in (SEP, "D", "E")) and j - i < len(tok.text):
+            while j < len(s) and (s[j] == FILL or s[j] in (SEP, "D", "E", ".")) and j - i < len(tok.text):
                 j += 1
             out.append((tok, s[i:j] == tok.text or s[i:j].replace("E", "D") == tok.text))
             i = j
